@@ -14,7 +14,7 @@ EVIDENCE = dict(
     rule="cases = all 2304 generated documents (1-4 pages; running header none/all/odd-even; page number none/'Page N'/bare; footer "
          "line; repeating body line; numeric body line; body line equal to the header; title; short last page) x 3 options; for "
          "each the real code's removals per page are judged by the contract's guard FilterOK (allowed/mandatory sets computed by "
-         "TLC), through layout.HeaderFooterDetector, through tabula.Open(..).Pages(p).Exclude*().Text() and through the other page-rendering operations of the fluent API, each of which has its own header/footer pass (Lines, Paragraphs, ReadingOrder, Analyze, Blocks, Elements, Document, ToMarkdown: one per page and case in quick, all in thorough; what an operation removes is read off the occurrence counts of each fragment text with and without the option); the recorded Filter "
+         "TLC), through layout.HeaderFooterDetector, through tabula.Open(..).Pages(p).Exclude*().Text() and through the other page-rendering operations of the fluent API, each of which has its own header/footer pass (Lines, Paragraphs, ReadingOrder, Analyze, Blocks, Elements, Document, ToMarkdown: one per page and case in quick, all in thorough; what an operation removes is read off the occurrence counts of each fragment text with and without the option); for documents whose pages share one content extent the detector also runs on the pages in top-down coordinates that overflow the page height; the recorded Filter "
          "events are validated by HeaderFooterTrace.tla. Non-trivial = some fragment is removable.",
     assumptions=["pdfdoc.BuildSimple places each fragment on its own line", "text identity is used to recognise fragments in Text() output"],
 )
